@@ -11,16 +11,26 @@ two module globals of ``vgi_rpc.http.server._sticky`` are rebound before the app
 
 The reaper thread is never *started*; a genuine ``_ReaperThread`` object is constructed, its ``_stop`` event is
 replaced by a tick source and the real ``run()`` loop is executed as a scheduler task (one or two ticks).
-Every source line of ``_SessionRegistry.*``, ``_StickyMiddleware._close_session`` and
-``_SessionResource.on_delete`` is a scheduling point (``sys.settrace`` window); together with the lock points
-and the explicit points in the method bodies / the close hook this puts a yield point between token
-validation and registry lookup (first line of ``get``), lookup and lock acquisition (``acquire:`` point),
-lock acquisition and dispatch, inside dispatch, around ``close_session`` (release point, every line of
-``_close_session`` and ``registry.close``) and at lock release.
+Scheduling points (``sys.settrace`` window): every source line of ``_SessionRegistry.get / close /
+drain_expired / shutdown`` (narrow window) or, in the harnesses marked ``w``, additionally every line of the
+other registry methods, ``_StickyMiddleware._close_session``, ``process_response``, ``_SessionResource.on_delete``
+and ``_ReaperThread.run`` (wide window).  Together with the lock points and the explicit points in the method
+bodies / the close hook this puts a yield point between token validation and registry lookup (first line of
+``get``), lookup and lock acquisition (``acquire:`` point), lock acquisition and dispatch, inside dispatch,
+around ``close_session`` (lock release point, every line of ``registry.close``) and at lock release.  The lines of
+the middleware outside the window only touch per-request objects, so the narrow window loses no interleaving
+of shared-state operations; the wide window is kept as a cross-check at bound 1.
 
 Tasks on ONE session: 2-3 request threads (``work``: begin, point, end; ``work_close``: begin, point,
-``ctx.close_session()``, point, end), one ``DELETE /__session__`` thread, the reaper loop, a clock event
-(below / across the TTL) and a ``drain(); shutdown()`` event.
+``ctx.close_session()``, point, end), one ``DELETE /__session__`` thread, the reaper loop, a clock jump
+(below / across the TTL; a separate environment event, or "while the reaper sleeps" = right before its first
+sweep) and a ``drain(); shutdown()`` event.  Environment tasks (reaper, clock, shutdown) need not run in an
+execution; a switch to one costs 0 or 1 against the preemption bound as stated per harness.
+
+Findings are keyed ``<kind>:<registry path that invoked the close hook>`` so that the lookup->lock window
+(``dispatch-after-close:*``), the release-before-remove order in ``_close_session``
+(``close-during-dispatch:close/_close_session``) and the lock-less TTL / shutdown eviction
+(``close-during-dispatch:{drain_expired/run,get/*,shutdown}``) stay separate.
 
 Monitor (weakest reading of the statement; the session's *close hook* is ``state.close()``):
   (a) at most one request is dispatching against the session at any time.  A request counts as dispatching
